@@ -131,7 +131,7 @@ def specStep (redis : Bool) (ttl wait interval : Nat) (st : SpecSt) (c : SCmd) (
     | .sleep =>
       -- a waiter that has slept through its whole wait timeout has given up
       { st with slept := st.slept + c.dt,
-                stale := (st.queued.filter fun q => decide (wait ≤ st.slept + c.dt - sinceOf st q)) ++ st.stale }
+                stale := (st.queued.filter fun q => decide (wait + sinceOf st q ≤ st.slept + c.dt)) ++ st.stale }
     | .observe => { st with viol := st.viol ++ observeViol redis ttl st c.c res flag }
     | _ => st
 
@@ -161,7 +161,7 @@ def ofEtcd : Etcd.Cmd → SCmd
   | .cancelCtx i => ⟨.unknown, i, 0⟩
 
 def classEtcd : Etcd.Res → Out
-  | .acquired => .acquired | .locked => .refused | .timeout => .refused
+  | .acquired => .acquired | .locked => .refused | .timeout => .refused | .sessionExpired => .refused
   | .blocked => .blocked | .ctxLive => .ctxLive | .ctxCancelled => .ctxDone
   | _ => .other
 
